@@ -416,6 +416,89 @@ def tampered_prelim(rng, res):
         shutil.rmtree(root, ignore_errors=True)
 
 
+def failing_stop_then_retry(rng, res):
+    """(vi) A stop that fails *while the products are being recorded* (two products collapse to one name under the
+    left-strip prefixes; a product path that cannot be read), with and without a base path, then - in the same process,
+    from the same place, with relative names - the retry with usable arguments. The failed stop must leave the
+    preliminary record as it was and write no final link; the retry must complete the recording (the model: recordStop
+    fails before any file operation; C12_retry)."""
+    KEY_FORM[0] = "signer"
+    STOP_KW.clear()
+    import hashlib
+    import in_toto.runlib as rl
+    from in_toto.models.metadata import Metadata
+    k = rng.choice(W.pool())
+    dsse = rng.random() < 0.5
+    base = rng.choice([None, "src", "src"])
+    how = rng.choice(["prefix_collision", "prefix_collision", "product_is_missing_dir"])
+    root = tempfile.mkdtemp(prefix="verif-c12f-")
+    cwd = os.getcwd()
+    try:
+        os.chdir(root)
+        top = os.path.join(root, base) if base else root
+        for sub in ("a", "b"):
+            os.makedirs(os.path.join(top, sub), exist_ok=True)
+        open(os.path.join(top, "m0"), "w").write("material\n")
+        kw = {"base_path": base} if base else {}
+        with quiet():
+            rl.in_toto_record_start("st", ["m0"], signer=k.signer, use_dsse=dsse, **kw)
+        open(os.path.join(top, "a", "x"), "w").write("ax\n")
+        open(os.path.join(top, "b", "x"), "w").write("bx\n")
+        kid = k.keyid[:8]
+        pre, fin = ".st.%s.link-unfinished" % kid, "st.%s.link" % kid
+        pre_bytes = open(os.path.join(root, pre), "rb").read()
+        listing = lambda: sorted(os.path.relpath(os.path.join(dp, f), root) for dp, _d, fs in os.walk(root) for f in fs)
+        before = listing()
+        try:
+            with quiet():
+                if how == "prefix_collision":
+                    rl.in_toto_record_stop("st", ["a/x", "b/x"], signer=k.signer, lstrip_paths=["a/", "b/"], **kw)
+                else:
+                    rl.in_toto_record_stop("st", ["a/x", "ostree:no-such-repo@ref"], signer=k.signer, **kw)
+            first = "ok"
+        except Exception as e:  # pylint: disable=broad-except
+            first = type(e).__name__
+        mid = listing()
+        mid_cwd = os.getcwd()
+        case = {"op": "failing_stop_then_retry", "how": how, "base_path": base, "dsse": dsse, "key": k.kind}
+        res.count("failing_stop_" + how)
+        ok_case = True
+        if first == "ok":
+            # (nothing to fail on this tree for that variant: count, do not judge)
+            res.count("failing_stop_did_not_fail")
+        else:
+            if mid != before or open(os.path.join(root, pre), "rb").read() != pre_bytes:
+                ok_case = False
+                res.fail("oracle", case, {"why": "a stop that failed while recording the products changed the directory or the preliminary record",
+                                          "before": before, "after": mid, "raised": first})
+            try:
+                with quiet():
+                    rl.in_toto_record_stop("st", ["a/x", "b/x"], signer=k.signer, **kw)
+                retry = "ok"
+            except Exception as e:  # pylint: disable=broad-except
+                retry = type(e).__name__ + ": " + str(e)[:100]
+            state = None
+            if retry == "ok":
+                try:
+                    md = Metadata.load(os.path.join(root, fin))
+                    md.verify_signature(k.pub)
+                    pl = md.get_payload()
+                    exp_m = {"m0": {"sha256": hashlib.sha256(b"material\n").hexdigest()}}
+                    exp_p = {"a/x": {"sha256": hashlib.sha256(b"ax\n").hexdigest()}, "b/x": {"sha256": hashlib.sha256(b"bx\n").hexdigest()}}
+                    state = "complete" if (pl.materials, pl.products) == (exp_m, exp_p) and not os.path.exists(os.path.join(root, pre)) else "wrong-content"
+                except Exception as e:  # pylint: disable=broad-except
+                    state = "unreadable " + type(e).__name__
+            if retry != "ok" or state != "complete":
+                ok_case = False
+                res.fail("oracle", case, {"why": "the preliminary record is present, unaltered and signed by the same key, yet the retry of the "
+                                                 "failed stop did not complete the recording", "first_stop": first, "retry": retry, "final_link": state,
+                                          "cwd_after_failed_stop": os.path.relpath(mid_cwd, root)})
+        res.case(dict(case, first_stop=first), True, ok_case, sample_cap=1)
+    finally:
+        os.chdir(cwd)
+        shutil.rmtree(root, ignore_errors=True)
+
+
 def interleaved(rng, res):
     KEY_FORM[0] = "signer"
     """start / stop / run for two step names and two keys in one directory."""
@@ -575,6 +658,8 @@ def shard(seed, idx, n, tier):
         interleaved(rng, res)
     for _ in range(2 * n):
         interleaved_random(rng, res)
+    for _ in range(2 * n):
+        failing_stop_then_retry(rng, res)
     return res
 
 
